@@ -295,20 +295,23 @@ class Verifier:
         pnames = [p.arg for p in a.posonlyargs + a.args + a.kwonlyargs]
         if a.vararg: pnames.append(a.vararg.arg)
         if a.kwarg: pnames.append(a.kwarg.arg)
+        bags = c.hints.get('kwargs_bag', {})      # `**kwargs` parameter modelled as a keyword bag: each listed key present or absent (one path each), other keywords not modelled
         for p in pnames:
+            if p in bags:
+                env[p] = E.KwDict({k_: havoc(w.ty(kty), p + '_' + k_, facts) for k_, kty in bags[p].items() if ex.choose(2) == 1}); continue
             if p not in c.params: raise Unsupported('parameter %s of %s has no declared type' % (p, c.key))
             env[p] = havoc(w.ty(c.params[p]), p, facts)
         for g, gty in c.ghost.items(): env[g] = havoc(w.ty(gty), g, facts)
         for s, sty in c.state.items(): env[s] = havoc(w.ty(sty), s, facts)
         for pn, alias in c.hints.get('entry_values', {}).items(): env[alias] = env[pn]     # ghost names for parameter entry values
-        self.cur_inputs = dict(env)
+        self.cur_inputs = {k_: v_ for k_, v_ in env.items() if isinstance(v_, E.V)}
         ex.st.env = env
         try:
             for f in facts: ex.assume(f)
             for ax in w.axioms:
                 if any(u in _names_used(c) for u in _spec_names(ax, w)): ex.assume(ex.eval_spec(ax))
             for v in env.values():
-                if isinstance(v.ty, TRef):
+                if isinstance(v, E.V) and isinstance(v.ty, TRef):
                     if ex.st.alloc is None: ex.st.alloc = self.alloc0()
                     ex.assume(z3.Select(ex.st.alloc, v.t))
             for r in c.requires: ex.assume(ex.eval_spec(r))
@@ -316,6 +319,8 @@ class Verifier:
                 self.path_kinds['infeasible-pre'] = self.path_kinds.get('infeasible-pre', 0) + 1; return
             ex.old = ex.st.copy(); ex.old.env = dict(env)
             entry_env = dict(env)
+            for p in bags:      # (bags are mutated in place: keep the entry value apart)
+                entry_env[p] = E.KwDict(dict(env[p].items)); ex.old.env[p] = entry_env[p]
             kind = 'normal'; result = NONE; exc = None
             try:
                 ex.exec_block(node.body)
